@@ -6,7 +6,7 @@
    n = what the call reports (the sizes of the parts it accounts for that were completed before the failing Write),
    accepted = the bytes the writer accepted during the call before the failing Write. *)
 From Coq Require Import ZArith List.
-Require Import Base.Tok Base.Iter Base.Wr Gen.Consts Gen.Types Gen.Preds Model.Packet Model.Muxer Model.DemuxFull
+Require Import Base.Tok Base.Iter Base.Wr Gen.Consts Gen.Types Gen.Preds Model.Packet Model.Muxer Model.DemuxFull Model.Faults
   Extract.RunBase Extract.RunDemux Extract.RunMux.
 Import ListNotations.
 Open Scope Z_scope.
@@ -37,16 +37,6 @@ Definition groups_of_call (o : mop) (out : mout) : list (list (list Z)) :=
   | MWritePacket p, Ok _ => packet_parts p C_MpegTsPacketSize
   | _, _ => mo_groups out
   end.
-
-(* bytes of the groups completed before the Write call with index k (within this call) *)
-Fixpoint n_before (groups : list (list (list Z))) (k : Z) : Z :=
-  match groups with
-  | [] => 0
-  | g :: r => let c := Z.of_nat (length g) in
-              if k <? c then 0 else Z.of_nat (length (concat g)) + n_before r (k - c)
-  end.
-
-Definition accepted (chunks : list (list Z)) (k : Z) : list Z := concat (firstn (Z.to_nat k) chunks).
 
 Fixpoint run_faulty (s : mstate) (ops : list mop) (k : Z) : list tok :=
   match ops with
